@@ -84,7 +84,7 @@ func (RxEngine) Generate(prop string, r *kit.Rand, tier string) *kit.Scenario[Rx
 	bases := []string{"interest", "data", "lp-interest", "lp-data", "frag", "nack", "idle", "random", "edge"}
 	for i := 0; i < n; i++ {
 		o := RxOp{Base: bases[r.Weighted([]int{5, 5, 5, 5, 6, 1, 1, 2, 3})], Seed: r.Intn(1 << 16)}
-		switch r.Weighted([]int{15, 25, 10, 10, 8, 6, 4, 12, 8, 10}) {
+		switch r.Weighted([]int{15, 25, 10, 10, 8, 6, 4, 12, 8, 10, 8}) {
 		case 0:
 			o.Mut = ""
 		case 1:
@@ -105,6 +105,8 @@ func (RxEngine) Generate(prop string, r *kit.Rand, tier string) *kit.Scenario[Rx
 		case 8:
 			o.Base = kit.Pick(r, []string{"lp-data", "lp-interest"})
 			o.Mut, o.Val = "token", kit.Pick(r, []uint64{0, uint64(c.Threads - 1), uint64(c.Threads), uint64(c.Threads + 1), 255, 256, 65535})
+		case 10:
+			o.Mut, o.At, o.Val = "setnum", r.Intn(64), kit.Pick(r, hugeVals)
 		case 9:
 			o.Mut, o.At, o.Val = "resize", r.Intn(64), uint64(kit.Pick(r, []int{0, 0, 1, 2, 3, 4, 5, 6, 7, 8, 9, 10, 16, 31, 32, 33, 252, 253, 300}))
 		}
@@ -250,7 +252,12 @@ var MutVals = []uint64{0, 1, 2, 3, 5, 7, 9, 127, 252, 253, 254, 255, 256, 8799, 
 // GenMut draws one generic corruption (the kinds every C04 part shares): fields is the bound for the element index,
 // span the bound for byte positions.
 func GenMut(r *kit.Rand, fields, span int) (mut string, at int, val uint64) {
-	switch r.Weighted([]int{4, 5, 4, 2, 3, 3, 2}) {
+	switch r.Weighted([]int{4, 5, 4, 2, 3, 3, 2, 3}) {
+	case 7:
+		if r.Bool() {
+			return "setnum", r.Intn(fields), kit.Pick(r, []uint64{1<<63 - 1, 1 << 63, 1<<63 + 1, 1<<64 - 2, 1<<64 - 1, 1<<32 - 1, 1 << 32, 1<<31 - 1, 1 << 31})
+		}
+		return "setnum", r.Intn(fields), kit.Pick(r, MutVals)
 	case 0:
 		return "len", r.Intn(fields), kit.Pick(r, MutVals)
 	case 1:
@@ -491,6 +498,53 @@ func Mutate(f []byte, mut string, at int, val uint64) []byte {
 					copy(g[e.lOff:], putVar(uint64(e.vLen+delta)))
 				}
 			}
+		}
+		return g
+	case "setnum":
+		// one element's value becomes the shortest natural-number encoding (1, 2, 4 or 8 bytes) of val, all enclosing
+		// lengths re-encoded: a consistent packet in which one number (a sequence number, a segment number in a
+		// FinalBlockId, a lifetime, a cost) is a boundary value
+		var nb []byte
+		switch {
+		case val <= 0xff:
+			nb = []byte{byte(val)}
+		case val <= 0xffff:
+			nb = []byte{byte(val >> 8), byte(val)}
+		case val <= 0xffffffff:
+			nb = []byte{byte(val >> 24), byte(val >> 16), byte(val >> 8), byte(val)}
+		default:
+			nb = make([]byte, 8)
+			for i := 0; i < 8; i++ {
+				nb[7-i] = byte(val >> (8 * i))
+			}
+		}
+		var fs []tlField
+		walkTLV(f, 0, &fs, 0)
+		if len(fs) == 0 {
+			return f
+		}
+		// prefer elements that look like numbers (1, 2, 4 or 8 bytes, nothing after them inside their parent... or
+		// simply short): at counts among those
+		var cand []int
+		for i, fl := range fs {
+			if (fl.vLen == 1 || fl.vLen == 2 || fl.vLen == 4 || fl.vLen == 8) && fl.vLen >= 0 && fl.lOff+fl.lLen+fl.vLen <= len(f) &&
+				(i+1 >= len(fs) || fs[i+1].tOff >= fl.lOff+fl.lLen+fl.vLen) {
+				cand = append(cand, i)
+			}
+		}
+		if len(cand) > 0 {
+			at = cand[at%len(cand)]
+		}
+		g := Mutate(f, "resize", at, uint64(len(nb)))
+		if len(g) == len(f) && len(nb) != fs[at%len(fs)].vLen {
+			return g
+		}
+		// the resized element keeps its type/length offsets up to its own header: find it again in g
+		var gs []tlField
+		walkTLV(g, 0, &gs, 0)
+		k := at % len(fs)
+		if k < len(gs) && gs[k].vLen == len(nb) && gs[k].lOff+gs[k].lLen+len(nb) <= len(g) {
+			copy(g[gs[k].lOff+gs[k].lLen:], nb)
 		}
 		return g
 	case "resize":
